@@ -318,6 +318,146 @@ func runC01(c *Ctx) {
 			c.Sample(map[string]any{"scenario": sc.Name, "planted_states": len(seeds), "alphabet": len(acts), "transitions": c.Transitions - before})
 		}
 	}
+	// all byte strings up to length 3 over a byte alphabet (incl. UTF-8 lead / continuation
+	// bytes alone, truncated and invalid sequences, ESC, CSI introducer, NUL, 0xff), as one
+	// chunk and one byte per read, in emacs and vi-insert, default and UTF-8 meta settings
+	{
+		balpha := []byte{'a', '\r', 0x1b, '[', '~', 0xc3, 0xa9, 0xe2, 0x82, 0xf0, 0x80, 0xff, 0x00, 'R', ';', '1'}
+		blen := 3
+		if quick {
+			balpha = []byte{'a', 0x1b, '[', 0xc3, 0xa9, 0xe2, 0x82, 0x80, 0xff, 0x00}
+		}
+		var strs [][]byte
+		var rec func(p []byte, d int)
+		rec = func(p []byte, d int) {
+			if len(p) > 0 {
+				strs = append(strs, append([]byte{}, p...))
+			}
+			if d == blen {
+				return
+			}
+			for _, b := range balpha {
+				rec(append(p, b), d+1)
+			}
+		}
+		rec(nil, 0)
+		type bj struct {
+			desc string
+			job  harness.Job
+		}
+		var bjs []bj
+		for _, mode := range []string{"emacs", "vi-insert"} {
+			for _, meta := range []string{"", "set convert-meta off\nset input-meta on\nset output-meta on\n"} {
+				for _, st := range strs {
+					for _, del := range []string{"chunk", "byte"} {
+						if del == "byte" && len(st) == 1 {
+							continue
+						}
+						var ans []harness.Answer
+						if del == "chunk" {
+							ans = []harness.Answer{{Bytes: st}}
+						} else {
+							for _, b := range st {
+								ans = append(ans, harness.Answer{Bytes: []byte{b}})
+							}
+						}
+						ans = append(ans, Key("a"), Key("\r"))
+						cfg := harness.Config{RC: modeRC(mode) + meta, W: 40, H: 12, Prompt: "$ "}
+						bjs = append(bjs, bj{fmt.Sprintf("[raw bytes] mode=%s utf8=%v bytes=%q delivery=%s", mode, meta != "", st, del), harness.Job{ID: len(bjs), Cfg: cfg, Calls: [][]harness.Answer{ans}}})
+					}
+				}
+			}
+		}
+		hangs := 0
+		next := 0
+		c.Pool.Stream(func() (harness.Job, bool) {
+			if next >= len(bjs) || hangs >= 3 || (next%2048 == 0 && c.Expired()) {
+				return harness.Job{}, false
+			}
+			next++
+			return bjs[next-1].job, true
+		}, func(j *harness.Job, t *harness.Trace) {
+			c.Evaluations++
+			c.Transitions++
+			c.Traces++
+			if t.Err != "" {
+				c.HarnessError(t.Err)
+				return
+			}
+			fp, what := c01Verdict(t)
+			if fp == "" {
+				c.Outcome("ok/" + LastCall(t).Outcome)
+				return
+			}
+			if LastCall(t).Outcome == "hung" {
+				hangs++
+			}
+			c.Outcome(fp)
+			c.ViolateJob(fp, fmt.Sprintf("%s: %s", bjs[j.ID].desc, what), j, func(t2 *harness.Trace) string { f, _ := c01Verdict(t2); return f })
+		})
+		if next < len(bjs) {
+			c.Cap(fmt.Sprintf("raw byte strings: stopped after %d of %d executions (hangs or deadline)", next, len(bjs)))
+		}
+		c.Sample(map[string]any{"scenario": "raw byte strings", "byte_alphabet": fmt.Sprintf("%q", balpha), "max_len": blen, "executions": next})
+	}
+	// vi operators x motions x counts from every small planted state (operator-pending
+	// and visual modes entered from arbitrary buffers, not only from the typed seeds)
+	{
+		alpha := []string{"a", " ", "(", ")", "\n", "\""}
+		if !quick {
+			alpha = c17Alphabet
+		}
+		// surround commands take one or two argument keys
+		motions := append(append([]string{}, c17Motions...), "s\"'", "s'\"", "s([", "s)]", "s\"", "s(")
+		rcV, _ := c16RC("vi")
+		var jobs []harness.Job
+		var descs []string
+		for _, b := range c02Strings(alpha, 2) {
+			n := len([]rune(b))
+			for pos := 0; pos < n || pos == 0; pos++ {
+				for _, op := range []string{"d", "c", "y"} {
+					for _, m := range motions {
+						for _, cnt := range []string{"", "2op", "op2", "op3"} {
+							cs := c17Case{buf: b, pos: pos, motion: m, count: cnt}
+							jobs = append(jobs, c17Job(len(jobs), cs, op, rcV))
+							descs = append(descs, op+" "+cs.String())
+						}
+					}
+					for _, m := range c17Visual {
+						for _, v := range []string{"v", "V"} {
+							cs := c17Case{buf: b, pos: pos, motion: m, visual: v}
+							jobs = append(jobs, c17Job(len(jobs), cs, op, rcV))
+							descs = append(descs, op+" "+cs.String())
+						}
+					}
+				}
+			}
+		}
+		if c.Expired() {
+			c.Cap("internal deadline: vi operator corpus skipped")
+			jobs = nil
+		}
+		for i := range jobs {
+			jobs[i].Want = harness.Want{}
+		}
+		c.Pool.Map(jobs, func(j *harness.Job, t *harness.Trace) {
+			c.Evaluations++
+			c.Transitions++
+			c.Traces++
+			if t.Err != "" {
+				c.HarnessError(t.Err)
+				return
+			}
+			fp, what := c01Verdict(t)
+			if fp == "" {
+				c.Outcome("ok/" + LastCall(t).Outcome)
+				return
+			}
+			c.Outcome(fp)
+			c.ViolateJob(fp, fmt.Sprintf("[vi operator corpus] %s: %s; keys: %s", descs[j.ID], what, ShowKeys(j.Calls[0])), j, func(t2 *harness.Trace) string { f, _ := c01Verdict(t2); return f })
+		})
+		c.Sample(map[string]any{"scenario": "vi operator corpus (planted state, operator d/c/y, motion, count form)", "executions": len(jobs)})
+	}
 	c.Extra = map[string]any{"states_by_main/local/waitkind": statesByMode}
 	c.NontrivialN = c.States
 	c.Bounds = map[string]any{"modes": []string{"emacs", "vi-insert", "vi-command (+visual, visual-line, operator-pending, register/find/replace argument waits, macro recording, search)"}, "variants": len(variants) + len(extra), "fault_kinds": faultKinds}
